@@ -68,7 +68,7 @@ func (b *Broker) send(ctx context.Context, id string, responder chan map[string]
 	topics.Range(func(key, value interface{}) bool {
 		size++
 		topic := key.(string)
-		cache := value.(*MessageCache)
+		cache, _ := value.(*MessageCache)
 		if cache == nil {
 			result[topic] = nil
 			topics.Delete(topic)
@@ -158,7 +158,11 @@ func (b *Broker) offline(ctx context.Context, topics *sync.Map, id string, topic
 	if messages, ok := topics.Load(topic); ok {
 		topics.Delete(topic)
 		if b.OnUnsubscribe != nil {
-			b.OnUnsubscribe(ctx, id, topic, messages.(*MessageCache).Take())
+			var pending []Message
+			if cache, _ := messages.(*MessageCache); cache != nil {
+				pending = cache.Take()
+			}
+			b.OnUnsubscribe(ctx, id, topic, pending)
 		}
 		b.response(ctx, id)
 		return true
